@@ -8,6 +8,21 @@ FM = "fairlearn/metrics/_fairness_metrics.py"
 DM = "fairlearn/metrics/_make_derived_metric.py"
 AMF = "fairlearn/metrics/_annotated_metric_function.py"
 BS = "fairlearn/metrics/_bootstrap.py"
+UP = "fairlearn/reductions/_moments/utility_parity.py"
+ER = "fairlearn/reductions/_moments/error_rate.py"
+BGL = "fairlearn/reductions/_moments/bounded_group_loss.py"
+MO = "fairlearn/reductions/_moments/moment.py"
+LAG = "fairlearn/reductions/_exponentiated_gradient/_lagrangian.py"
+EG = "fairlearn/reductions/_exponentiated_gradient/exponentiated_gradient.py"
+GS = "fairlearn/reductions/_grid_search/grid_search.py"
+GG = "fairlearn/reductions/_grid_search/_grid_generator.py"
+CR = "fairlearn/preprocessing/_correlation_remover.py"
+TO = "fairlearn/postprocessing/_threshold_optimizer.py"
+TC = "fairlearn/postprocessing/_tradeoff_curve_utilities.py"
+IT = "fairlearn/postprocessing/_interpolated_thresholder.py"
+IV = "fairlearn/utils/_input_validation.py"
+PE = "fairlearn/adversarial/_pytorch_engine.py"
+AM = "fairlearn/adversarial/_adversarial_mitigation.py"
 
 MUTANTS = {
     # ---------------------------------------------------------------- C14 / C11 / C03 base metrics
@@ -142,4 +157,58 @@ MUTANTS = {
     "bootstrap_int_seed_ignored_when_zero": {
         "props": ["C18"], "what": "random_state=0 treated as None",
         "edits": [(BS, "    if random_state is None:", "    if not random_state:")]},
+    # ---------------------------------------------------------------- C15 correlation remover
+    "rev_fix_corr_remover_mean_axis": {
+        "props": ["C15"], "what": "revert fix 2f447fb: scalar mean over all sensitive columns",
+        "edits": [(CR, "X_sensitive.mean(axis=0)", "X_sensitive.mean()")]},
+    "corr_no_centring": {
+        "props": ["C15"], "what": "sensitive columns not centred in transform",
+        "edits": [(CR, "        X_s_center = X_sensitive - self.sensitive_mean_\n        X_filtered", "        X_s_center = X_sensitive\n        X_filtered")]},
+    "corr_alpha_swapped": {
+        "props": ["C15"], "what": "alpha and 1-alpha swapped",
+        "edits": [(CR, "        return self.alpha * X_filtered + (1 - self.alpha) * X_use", "        return (1 - self.alpha) * X_filtered + self.alpha * X_use")]},
+    "corr_transform_recentres_on_new_data": {
+        "props": ["C15"], "what": "transform centres with the new data's mean",
+        "edits": [(CR, "        X_s_center = X_sensitive - self.sensitive_mean_\n        X_filtered", "        X_s_center = X_sensitive - X_sensitive.mean(axis=0)\n        X_filtered")]},
+    "corr_split_sorted_ids": {
+        "props": ["C15"], "what": "_split_X returns the sensitive columns in sorted position order (coefficients learned in id order)",
+        "edits": [(CR, "        return X[:, non_sensitive], X[:, sensitive]", "        return X[:, non_sensitive], X[:, sorted(sensitive)] if hasattr(self, 'beta_') else X[:, sensitive]")]},
+    # ---------------------------------------------------------------- C06 / C07 moments
+    "rev_fix_event_control_nan": {
+        "props": ["C06", "C07"], "what": "revert fix 4717c55: NaN events formatted into 'control=c,nan'",
+        "edits": [(UP, "    if pd.notnull(control) and pd.notnull(event):", "    if pd.notnull(control):")]},
+    "ratio_on_wrong_term": {
+        "props": ["C06", "C07"], "what": "'+' entries apply the ratio to the event mean instead of the group mean",
+        "edits": [(UP, """            self.U["+", e, g] = (
+                event_select / self.prob_event[e]
+                + (-self.ratio) * group_event_select / self.prob_group_event[e, g]
+            )""", """            self.U["+", e, g] = (
+                self.ratio * event_select / self.prob_event[e]
+                + (-1) * group_event_select / self.prob_group_event[e, g]
+            )""")]},
+    "fprp_event_on_positives": {
+        "props": ["C06"], "what": "FalsePositiveRateParity conditions on y == 1",
+        "edits": [(UP, "        base_event = y_train.apply(lambda v: _LABEL + \"=\" + str(v)).where(y_train == 0)",
+                   "        base_event = y_train.apply(lambda v: _LABEL + \"=\" + str(v)).where(y_train == 1)")]},
+    "gamma_sign_flipped": {
+        "props": ["C06", "C07"], "what": "gamma = +U^T pred / n",
+        "edits": [(UP, "        g_signed = -self.U.T.dot(pred) / self.total_samples", "        g_signed = self.U.T.dot(pred) / self.total_samples")]},
+    "bound_only_on_plus": {
+        "props": ["C06"], "what": "bound() is 0 on the '-' entries",
+        "edits": [(UP, "        return pd.Series(self.eps, index=self.index)", "        b = pd.Series(self.eps, index=self.index)\n        b['-'] = 0.0\n        return b")]},
+    "bgl_mean_over_all_rows": {
+        "props": ["C06"], "what": "BoundedGroupLoss.gamma: loss averaged over all rows for every group",
+        "edits": [(BGL, "        return expect_attr[_LOSS]", "        return expect_attr[_LOSS] * 0 + self.tags[_LOSS].mean()")]},
+    "error_rate_costs_swapped": {
+        "props": ["C06", "C07"], "what": "ErrorRate.gamma applies fp cost to false negatives",
+        "edits": [(ER, "        total_fn_cost = np.sum(signed_errors[signed_errors > 0] * self.fn_cost)", "        total_fn_cost = np.sum(signed_errors[signed_errors > 0] * self.fp_cost)")]},
+    "square_loss_clips_prediction_only": {
+        "props": ["C06"], "what": "SquareLoss does not clip y_true",
+        "edits": [(BGL, """        return (
+            np.clip(y_true, self.min_val, self.max_val)
+            - np.clip(y_pred, self.min_val, self.max_val)
+        ) ** 2""", """        return (
+            y_true
+            - np.clip(y_pred, self.min_val, self.max_val)
+        ) ** 2""")]},
 }
